@@ -49,6 +49,12 @@ def _cases_for_doc(doc, rng, dense):
 
 
 def gen(rng, tier):
+    for case in _gen(rng, tier):
+        if not isinstance(case["doc"], str):      # the API reads a top-level str as JSON text
+            yield case
+
+
+def _gen(rng, tier):
     for doc in SMALL_DOCS:
         yield from _cases_for_doc(doc, rng, dense=True)
     n = 1200 if tier == "thorough" else 120
